@@ -272,3 +272,20 @@ func (e *Engine) BuildScript(spec *plan.Script) (*tengo.Script, error) {
 type customErr struct{ code int }
 
 func (c *customErr) Error() string { return "custom error " + fmt.Sprint(c.code) }
+
+// hostStringer is a host-provided object type whose String method itself uses
+// tengo's formatter (a format call nested inside a format call).
+type hostStringer struct {
+	tengo.ObjectImpl
+	n int64
+}
+
+func (h *hostStringer) TypeName() string { return "stringer" }
+func (h *hostStringer) String() string {
+	s, err := tengo.Format("<%d|%s|%5.1f>", &tengo.Int{Value: h.n}, &tengo.String{Value: "in"}, &tengo.Float{Value: 2.5})
+	if err != nil {
+		return "!" + err.Error()
+	}
+	return s
+}
+func (h *hostStringer) Copy() tengo.Object { return &hostStringer{n: h.n} }
